@@ -281,8 +281,12 @@ def emit : Handler := fun req => do
       | none => acc) ([], [])
   /- F10-4: an edge that exists only because an inline sub-schema is a structural copy of component `T` (typed `T`
   through the schema-identity cache, never boxed, and not a dependency edge) -/
+  -- components of which SOME schema of the document holds a structural copy
+  let anyCopies : List GName := dedup (schemasJ0.flatMap fun (_, v) => (refsAndCopies fps0 compTexts true v).2)
+  -- the holder's schema (with its allOf parents) never names `t` by `$ref`, and the document has a structural copy of
+  -- `t` (in the holder itself, or in a schema whose members the holder takes over): the edge can only be the copy route
   let copyOnly (dn : String) (t : GName) : Bool := match ownOf dn, rustToSchema.lookup (String.ofList t) with
-    | some (rs, cs), some k => cs.contains k.toList && !rs.contains k.toList
+    | some (rs, _), some k => anyCopies.contains k.toList && !rs.contains k.toList
     | _, _ => false
   let egraphNoCopy : EGraph := egraph.map fun (n, es) => (n, es.filter fun e => !copyOnly (String.ofList n) e.target)
   let hasIndirection := emittedCycleHasIndirection egraph
@@ -455,7 +459,8 @@ def emit : Handler := fun req => do
         -- both a copy and a `$ref` of the same component in one holder: the two members cannot be told apart by name
         -- a copy INHERITED from an allOf parent is re-read from the merged schema, which need not be identical to the
         -- component any more: the rule does not say which way it goes
-        let inheritedCopy := byCopy && (match ownSelf dn with | some (_, cs) => !cs.contains k.toList | none => false)
+        let inheritedCopy := (byCopy && (match ownSelf dn with | some (_, cs) => !cs.contains k.toList | none => false)) ||
+          (!byCopy && !byName && own.isSome && anyCopies.contains k.toList)
         if (byCopy && byName) || inheritedCopy then none else
         let b : Json := if useModel then (if byCopy then Json.bool false else match expectBoxedAt sdeps isDiscEnum e.via k.toList with | some b => Json.bool b | none => Json.null) else Json.bool (e.via.contains Via.box)
         some (Json.arr #[Json.str dn, str e.target, b])
